@@ -55,6 +55,19 @@ func podUniverse(nns, nnm int) []*Obj {
 	return r
 }
 
+// prefixObjs: pods and services whose names are prefixes of one another,
+// continue with '-', or concatenate to the same string (kobj.StrZu ...)
+func prefixObjs(startID int) []*Obj {
+	id := startID
+	var r []*Obj
+	for _, k := range [][2]int{{StrZu, StrZzw}, {StrZuEu, 1}, {StrZuz, StrZw}, {StrZu, StrZw}, {StrZuz, StrZzw}, {StrZuEu, StrZzw}, {1, StrZw}} {
+		r = append(r, &Obj{ID: id, Kind: KPod, NS: k[0], NM: k[1], RV: "1", Labels: Map{{1, k[1]}}, Spec: SPod, Node: 1},
+			&Obj{ID: id + 1, Kind: KService, NS: k[0], NM: k[1], RV: "1", Labels: Map{{1, 1}}, Spec: SService, Sel: Map{{1, 1}}})
+		id += 2
+	}
+	return r
+}
+
 // objects of other kinds, for the typed filters and "rejects other kinds"
 func otherKinds(startID int) []*Obj {
 	id := startID
@@ -100,6 +113,15 @@ func atoms(small bool) []*Filt {
 		&Filt{Tag: FNSName, IDs: []ID2{{1, 1}, {2, 0}, {0, 3}, {3, 3}}},
 		&Filt{Tag: FNSName, IDs: []ID2{{2, 0}, {1, 1}, {3, 3}, {0, 3}}},
 		&Filt{Tag: FNSName, IDs: []ID2{{0, 3}, {2, 0}, {1, 1}, {3, 3}}},
+		// names that are prefixes of one another, that continue with '-', and pairs
+		// whose concatenation coincides (kobj.StrZu ...): ids are pairs, not strings
+		&Filt{Tag: FNSName, IDs: []ID2{{StrZu, StrZzw}, {StrZuEu, 1}}},
+		&Filt{Tag: FNSName, IDs: []ID2{{StrZuEu, 1}, {StrZu, StrZzw}, {StrZuz, StrZw}}},
+		&Filt{Tag: FNSName, IDs: []ID2{{StrZuz, StrZw}}},
+		&Filt{Tag: FNSName, IDs: []ID2{{StrZu, 0}, {0, StrZw}}},
+		// more than a handful of wildcard entries
+		&Filt{Tag: FNSName, IDs: []ID2{{1, 0}, {0, 2}, {3, 0}, {0, 1}, {StrZuEu, 0}, {0, StrZzw}}},
+		&Filt{Tag: FNSName, IDs: []ID2{{1, 0}, {0, 2}, {3, 0}, {0, 1}, {StrZuEu, 0}, {0, StrZzw}, {2, 2}, {StrZu, StrZzw}}},
 		&Filt{Tag: FLabels, Map: nil},
 		&Filt{Tag: FLabels, Map: Map{{1, 1}, {2, 2}}},
 		&Filt{Tag: FLabels, Map: Map{{2, 3}}},
@@ -155,6 +177,14 @@ func permGroups() [][]*Filt {
 		}
 		g2 = append(g2, &Filt{Tag: tag, Objs: []*Obj{src[0], src[1]}}, &Filt{Tag: tag, Objs: []*Obj{src[1], src[0]}})
 		groups = append(groups, g3, g2)
+		// sources whose namespace and name concatenate to the same string, and a
+		// namespace that continues another one with '-'
+		psrc := []*Obj{mkw(kind, StrZu, StrZzw), mkw(kind, StrZuz, StrZw), mkw(kind, StrZuEu, 1)}
+		var p3 []*Filt
+		for _, p := range perms3 {
+			p3 = append(p3, &Filt{Tag: tag, Objs: []*Obj{psrc[p[0]], psrc[p[1]], psrc[p[2]]}})
+		}
+		groups = append(groups, p3, []*Filt{{Tag: tag, Objs: []*Obj{psrc[0], psrc[1]}}, {Tag: tag, Objs: []*Obj{psrc[1], psrc[0]}}})
 	}
 	return groups
 }
@@ -351,6 +381,7 @@ func acceptMatrix(c *Ctx, fs []*Filt, os []*Obj) {
 func runC18(c *Ctx) {
 	objs := podUniverse(3, 3)
 	objs = append(objs, otherKinds(5000)...)
+	objs = append(objs, prefixObjs(5500)...)
 	var terms []*Filt
 	all := atoms(false)
 	for _, a := range all {
@@ -484,6 +515,7 @@ func goEqual(a, b filter.Filter) (res bool) {
 func runC17(c *Ctx) {
 	objs := podUniverse(3, 3)
 	objs = append(objs, otherKinds(5000)...)
+	objs = append(objs, prefixObjs(5500)...)
 	objs = append(objs, randObjs(rand.New(rand.NewSource(c.Seed*31+170)), 120, 820000)...)
 	gos := make([]metav1.Object, len(objs))
 	for i, o := range objs {
@@ -922,11 +954,19 @@ func runC19(c *Ctx) {
 			mk(&Obj{Kind: KIngress, NS: ns, NM: 3, Spec: SIngress, Backend: 3, Paths: []int{1}}),
 			mk(&Obj{Kind: KIngress, NS: ns, NM: 4, Spec: SIngress}))
 	}
+	// namespaces that are prefixes of one another / continue with '-'
+	ings = append(ings,
+		mk(&Obj{Kind: KIngress, NS: StrZu, NM: 1, Spec: SIngress, Backend: StrZzw}),
+		mk(&Obj{Kind: KIngress, NS: StrZuEu, NM: 1, Spec: SIngress, Backend: 1}),
+		mk(&Obj{Kind: KIngress, NS: StrZuz, NM: 1, Spec: SIngress, Backend: StrZw}))
 	var svcs []*Obj
 	for ns := 1; ns <= 3; ns++ {
 		for nm := 1; nm <= 4; nm++ {
 			svcs = append(svcs, mk(&Obj{Kind: KService, NS: ns, NM: nm, Spec: SService, Sel: Map{{1, 1}}}))
 		}
+	}
+	for _, k := range [][2]int{{StrZu, StrZzw}, {StrZuEu, 1}, {StrZuz, StrZw}, {StrZu, StrZw}, {StrZuz, StrZzw}} {
+		svcs = append(svcs, mk(&Obj{Kind: KService, NS: k[0], NM: k[1], Spec: SService, Sel: Map{{1, 1}}}))
 	}
 	var iterms []*Filt
 	subsetsUpTo(len(ings), maxk, func(ix []int) {
